@@ -171,11 +171,15 @@ fn apply(doc: &mut DocumentMut, o: &J) -> Res {
 /// --in histories.ndjson --docs docs.ndjson
 pub fn edit_events(args: &Args) {
     let recs = read_ndjson(args.req("in"));
-    let docs = read_ndjson(args.req("docs"));
+    let docs = match args.get("docs") {
+        Some(p) => read_ndjson(p),
+        None => Vec::new(),
+    };
     let mut out = out_writer(args);
     for (n, r) in recs.iter().enumerate() {
         let dn = r["doc"].as_u64().unwrap() as usize;
-        let start = from_cps(&docs[dn - 1]["text"]);
+        // a history either names one of the start documents of EditDocs or carries its own start text
+        let start = if r["start"].is_array() { from_cps(&r["start"]) } else { from_cps(&docs[dn - 1]["text"]) };
         let mut doc = DocumentMut::from_str(&start).expect("start document parses");
         let mut steps = Vec::new();
         for o in r["ops"].as_array().unwrap() {
@@ -204,6 +208,126 @@ pub fn edit_events(args: &Args) {
                 }
             }
         }
-        writeln!(out, "{}", json!({"ev": "edit", "id": format!("edit{n}"), "doc": dn, "start": cps(&start), "steps": steps})).unwrap();
+        writeln!(out, "{}", json!({"ev": "edit", "id": match r["id"].as_str() { Some(x) => format!("{x}#{n}"), None => format!("edit{n}") }, "doc": dn, "start": cps(&start), "steps": steps})).unwrap();
+    }
+}
+
+
+// ---- seeded random histories on arbitrary start documents (direction V) ----
+
+/// every operation the model knows that the API offers at the table-likes of `item` (with their paths)
+fn candidate_ops(item: &Item, path: &mut Vec<J>, out: &mut Vec<J>) {
+    let zz = cps("zz");
+    let leaf = json!({"k": "i", "neg": false, "d": [9]});
+    let newt = json!({"k": "t", "v": [{"key": cps("id"), "val": leaf.clone()}]});
+    let op = |name: &str, path: &Vec<J>, key: J, v: &J, i: usize| json!({"op": name, "path": path, "key": key, "v": v, "i": i});
+    if let Some(t) = item.as_table_like() {
+        out.push(op("insert", path, zz.clone(), &leaf, 0));
+        out.push(op("insert", path, zz.clone(), &newt, 0));
+        out.push(op("sort_values", path, json!([]), &leaf, 0));
+        out.push(op("fmt", path, json!([]), &leaf, 0));
+        out.push(op("clear", path, json!([]), &leaf, 0));
+        let is_std = item.is_table();
+        for (k, v) in t.iter() {
+            let kc = cps(k);
+            if v.as_array_of_tables().is_some_and(|a| a.is_empty()) {
+                continue;
+            }
+            out.push(op("insert", path, kc.clone(), &leaf, 0));
+            out.push(op("remove", path, kc.clone(), &leaf, 0));
+            if v.is_table() {
+                out.push(op("to_inline", path, kc.clone(), &leaf, 0));
+            }
+            if v.is_inline_table() && is_std {
+                out.push(op("to_table", path, kc.clone(), &leaf, 0));
+            }
+            if let Some(a) = v.as_array() {
+                out.push(op("array_fmt", path, kc.clone(), &leaf, 0));
+                out.push(op("array_push", path, kc.clone(), &leaf, 0));
+                for i in 0..=a.len().min(2) {
+                    out.push(op("array_insert", path, kc.clone(), &leaf, i));
+                }
+                for i in 0..a.len().min(3) {
+                    out.push(op("array_replace", path, kc.clone(), &leaf, i));
+                    out.push(op("array_remove", path, kc.clone(), &leaf, i));
+                }
+            }
+            if let Some(a) = v.as_array_of_tables() {
+                // an empty array of tables cannot be spelled: it exists in memory only (no operations on it, and the
+                // last element is not removed, so that the text always shows the whole state)
+                if a.is_empty() {
+                    continue;
+                }
+                out.push(op("aot_push", path, kc.clone(), &newt, 0));
+                if a.len() >= 2 {
+                    for i in 0..a.len().min(3) {
+                        out.push(op("aot_remove", path, kc.clone(), &leaf, i));
+                    }
+                }
+            }
+            // below
+            path.push(kc);
+            match v {
+                Item::ArrayOfTables(a) => {
+                    for (i, t) in a.iter().enumerate() {
+                        path.push(json!([-1, i]));
+                        candidate_ops(&Item::Table(t.clone()), path, out);
+                        path.pop();
+                    }
+                }
+                Item::Value(Value::Array(a)) => {
+                    for (i, e) in a.iter().enumerate() {
+                        if e.is_inline_table() {
+                            path.push(json!([-1, i]));
+                            candidate_ops(&Item::Value(e.clone()), path, out);
+                            path.pop();
+                        }
+                    }
+                }
+                _ => candidate_ops(v, path, out),
+            }
+            path.pop();
+        }
+    }
+}
+
+/// --corpus texts.ndjson --n N --len L --seed S : N random histories of <= L operations on every text that the
+/// parser accepts and prints back unchanged (so that nothing but the edits can alter the text)
+pub fn gen_edit_random(args: &Args) {
+    use rand::rngs::StdRng;
+    use rand::{Rng, SeedableRng};
+    let recs = read_ndjson(args.req("corpus"));
+    let n: usize = args.get("n").map(|x| x.parse().unwrap()).unwrap_or(3);
+    let len: usize = args.get("len").map(|x| x.parse().unwrap()).unwrap_or(3);
+    let seed: u64 = args.get("seed").map(|x| x.parse().unwrap()).unwrap_or(1);
+    let mut rng = StdRng::seed_from_u64(seed);
+    let mut out = out_writer(args);
+    for r in recs.iter() {
+        if !r["text"].is_array() {
+            continue;
+        }
+        let text = from_cps(&r["text"]);
+        let Ok(doc0) = DocumentMut::from_str(&text) else { continue };
+        if doc0.to_string() != text {
+            continue;
+        }
+        for _ in 0..n {
+            let mut doc = doc0.clone();
+            let mut ops = Vec::new();
+            for _ in 0..len {
+                let mut cands = Vec::new();
+                candidate_ops(doc.as_item(), &mut Vec::new(), &mut cands);
+                if cands.is_empty() {
+                    break;
+                }
+                let o = cands[rng.gen_range(0..cands.len())].clone();
+                let ok = catch_unwind(AssertUnwindSafe(|| matches!(apply(&mut doc, &o), Res::Ok))).unwrap_or(false);
+                ops.push(o);
+                if !ok {
+                    break;
+                }
+            }
+            writeln!(out, "{}", json!({"doc": 0, "id": r["id"], "start": r["text"], "ops": ops})).unwrap();
+        }
     }
 }
